@@ -50,6 +50,8 @@ def check_C19(tier, seed):
     out.extra["large_instance_exports"] = len(cases)
     out.judge(core.for_property([({"op": "large_export", "case": c}, p) for c, p in bad], "C19"), "export_large",
               lambda v, p: {"engine": "export_large", "case": str(v["case"])})
+    from .checks_lifecycle import run_lifecycle_traces
+    run_lifecycle_traces(out, "C19", tier)
     out.exhaustive = True
     out.assumptions += [
         "systems: subsets of 2, 3 or 5 of five flow templates (names with spaces, '=>', '->', ':' and parentheses that stay distinct after "
